@@ -168,10 +168,18 @@ WEIGHTS = {
 }
 
 
-def next_op(r, sp, shadow, used_names, first=False):
-    """one operation descriptor for the current state; None when nothing applies"""
+def next_op(r, sp, shadow, used_names, first=False, nframes=0, aliasing=False):
+    """one operation descriptor for the current state; None when nothing applies.
+    nframes: frames returned earlier that may become a Database; aliasing: several databases are alive
+    (in-place operations are then preferred: they are the ones that would show shared memory)"""
     n = shadow.n()
     ops = dict(WEIGHTS)
+    if nframes:
+        ops['adopt'] = 6
+    if aliasing:
+        ops['scale_column'] = 30
+        ops['remove'] = 18
+        ops['add_column'] = 12
     if first and r.random() < 0.2:
         return {'op': 'panel', 'column': sp.group}
     if shadow.panel is None:
@@ -182,6 +190,8 @@ def next_op(r, sp, shadow, used_names, first=False):
         ops['sample_map'] = 14
         ops['flat'] = 12
     op = r.choices(list(ops), list(ops.values()))[0]
+    if op == 'adopt':
+        return {'op': 'adopt', 'which': r.randrange(nframes)}
     if op == 'remove':
         return {'op': 'remove', **formula(r, sp, 'cond')}
     if op in ('add_column', 'define_variable'):
@@ -201,9 +211,9 @@ def next_op(r, sp, shadow, used_names, first=False):
         elif c in sp.key:
             s = r.choice([2, 3, 10])
         elif c in sp.pos:
-            s = r.choice([0.5, 2.0, 10, 0.01, 3, 1 / 3, 100.0, 1.0])
+            s = r.choice([0.5, 2.0, 10, 0.01, 3, 1 / 3, 100.0, 1.0, 2])
         else:
-            s = r.choice([0.5, 2.0, -1.0, 10, 0.01, 3, 1 / 3, 1e-3, 100, -0.25])
+            s = r.choice([0.5, 2.0, -1.0, 10, 0.01, 3, 1 / 3, 1e-3, 100, -0.25, 2, -1])
         return {'op': 'scale_column', 'column': c, 'scale': s}
     if op == 'panel':
         cands = [sp.group] * 6 + list(sp.key) + list(sp.const)
@@ -232,24 +242,34 @@ def next_op(r, sp, shadow, used_names, first=False):
         return {'op': 'sample_map', 'size': r.choice([None, None, 1, 3, r.randint(1, 30)])}
     if op == 'extract_rows':
         c = r.random()
+        extra = {}
+        seq = lambda: r.choice(['list', 'list', 'tuple', 'array'])
         if c < 0.3:
             a = r.randrange(n)
             b = r.randint(a + 1, n)
             pos = list(range(a, b))
             form = 'range'
-        elif c < 0.55:
+        elif c < 0.42:
+            a = r.randrange(n)
+            rg = (a, r.randint(a + 1, n), r.choice([2, 3]))
+            if r.random() < 0.3:
+                rg = (n - 1, -1, -1)  # all rows, last first
+            pos = list(range(*rg))
+            form = 'srange'
+            extra = {'range': list(rg)}
+        elif c < 0.6:
             pos = sorted(r.sample(range(n), r.randint(1, n)))
-            form = 'list'
-        elif c < 0.75:
+            form = seq()
+        elif c < 0.78:
             pos = [r.randrange(n) for _ in range(r.randint(1, min(2 * n, 30)))]  # repeats, any order
-            form = 'list'
+            form = seq()
         elif c < 0.9:
             pos = list(range(n))[::-1]
-            form = 'list'
+            form = seq()
         else:
             pos = [0, n]
             form = 'out'
-        return {'op': 'extract_rows', 'positions': pos, 'form': form, 'switch': form != 'out' and r.random() < 0.4}
+        return {'op': 'extract_rows', 'positions': pos, 'form': form, 'switch': form != 'out' and r.random() < 0.4, **extra}
     if op == 'flat':
         ident = None
         if shadow.panel is not None and r.random() < 0.4:
